@@ -50,6 +50,7 @@ def strategy(tier):
         _case(gen.admgs(1, 6)),
         _case(gen.admgs(3, 6, bi_densities=(2, 4), di_densities=(1, 2, 3))),
         _case(gen.embedded_admgs(2)),
+        _case(gen.embedded_admgs(1, motifs=gen.SEP_MOTIFS)),
     )
 
 
